@@ -312,6 +312,7 @@ theorem deepcopy_bspec {cs : List ClassDesc} {h0 : Heap} (W : WorldOK2 cs h0) :
                 rcases List.mem_cons.mp hmem with h2 | h2
                 · cases h2; exact E
                 · exact (Q.mono (ea.trans (Ext.append _ _))) a c h2
+          | uncopyable => simp [hk] at hc
           | list | array | dict | tuple | trace | cls =>
             simp only [hk] at hc
             cases hcs : copySlotsWith (deepcopy cs n) h m o.slots with
